@@ -57,7 +57,7 @@ type c13case struct {
 }
 
 func RunC13(c *lib.Ctx) {
-	c.Rule = "cases = (a) every sampled genuine membership answer (event, query version) and incremental answer (i,j) of seeded logs: encode to the public JSON form, decode, compare every field and the verification verdict on the authentic snapshot and on three perturbed ones plus a wrong digest; (b) synthetic history audit paths with indexes up to 2^63-1 and heights up to 64 through Serialize/ParseAuditPath; (c) snapshots, signed snapshots and batches with boundary contents through their JSON codecs; (d) replicated add-commands (0..10^4 digests, odd lengths) and gossip messages (all TTL signs, nil/empty/large payload, From set/unset) through their binary codecs; non-trivial = object with at least one non-zero field; distinct by (kind, shape)."
+	c.Rule = "cases = (a) every sampled genuine membership answer (event, query version) and incremental answer (i,j) of seeded logs: encode to the public JSON form, decode, compare every field and the verification verdict on the authentic snapshot and on three perturbed ones plus a wrong digest; (b) synthetic history audit paths with indexes up to 2^63-1 and heights up to 64 through Serialize/ParseAuditPath; (c) snapshots, signed snapshots and batches with boundary contents through their JSON codecs; (d) replicated add-commands (0..10^4 digests, odd lengths) and gossip messages (all TTL signs, nil/empty/large payload, From set/unset) through their binary codecs; (e) genuine answers fetched and decoded by the real HTTP client (two construction paths) and verified by 8 goroutines at once, each on its own decoded proofs: verdicts must equal the one-at-a-time verdicts; non-trivial = object with at least one non-zero field; distinct by (kind, shape)."
 	c.Assume = []string{"field equality treats nil and empty byte strings as equal, and the hyper proof value as the version it encodes (the wire form carries the version number, not the padded bytes)"}
 
 	fail := func(cs c13case, key, what string) { c.Violation(key, cs.Kind+": "+what+" ["+cs.Detail+"]", cs) }
@@ -400,6 +400,7 @@ func RunC13(c *lib.Ctx) {
 			c.Case(fmt.Sprintf("msg/ttl%d/p%d/f%v", sign(m.TTL), sizeClass(len(m.Payload)), m.From != nil), true)
 		}
 	}
+	c13ConcurrentClient(c)
 	c.Sample(c13case{ID: "log0", Kind: "membership", Detail: "every sampled (event, query version) of each seeded log: fields + verdicts on 4 snapshots x 3 digests"})
 	c.Sample(c13case{ID: "msg0", Kind: "gossip-message", Detail: "ttl=-1 payload=0 from=false"})
 }
